@@ -393,6 +393,10 @@ class SymReal:
     def __float__(self):
         if self.t.op == "const":
             return float(self.t.val)
+        if CUR is not None and CUR.env.get("float_sink_ok"):
+            # declared sink site (progress-bar text): the placeholder does not flow back into tensors
+            CUR.sinks += 1
+            return 0.0
         raise EngineUnsupported("float() of a symbolic real")
 
     def __int__(self):
